@@ -37,9 +37,10 @@ def run(ctx):
         ("edges CompactBitArray, 2 registers, sizes -1..3", "BitArray_ce.cfg", dict(tags=("EDGE",))),
         ("pairs over word-boundary sizes", "BitArray_pq.cfg" if quick else "BitArray_pt.cfg", dict(tags=("EDGE",))),
         ("simulation, sizes up to 200, depth 12", "BitArray_sim.cfg",
-         dict(mode="simulate", simulate=600 if quick else 8000, depth=14, tags=("TRACE",), workers=1)),
+         dict(mode="simulate", simulate=400 if quick else 10000, depth=16, tags=("TRACE",), workers=1)),
     ]
     if not quick:
+        jobs.append(("edges CompactBitArray at byte/word boundaries (sizes 7..65), New then Set/Copy", "BitArray_cb.cfg", dict(tags=("EDGE",))))
         jobs.append(("exhaustive laws, 3 registers, sizes -1..3", "BitArray_t.cfg", dict()))
     out = {}
 
